@@ -22,15 +22,37 @@ var pacingCalls = map[string]bool{
 	"(*encoding/json.Decoder).Decode": false,
 }
 
-// blockingQueries: repo functions that issue a Consul blocking query; the int is the index of the
-// wait-index argument. A call paces the loop only if that argument is loop-carried and advanced
-// from the call's own index result (rule W3).
-var blockingQueries = map[string]int{
-	repoMod + "/cert.getCerts":            2,
-	repoMod + "/registry/consul.listKV":   2,
-	repoMod + "/registry/consul.getKV":    2,
-	repoMod + "/registry/consul.listKeys": 2,
+// blockingQueryParam: fn is a repository wrapper around a Consul blocking query — one of its (uint64) parameters is
+// stored into the WaitIndex field of the api.QueryOptions it passes on. Returns the index of that parameter among the
+// call's arguments. Found by role, so a renamed or newly added wrapper is recognised (rule W3: a call paces the loop
+// only if that argument is loop-carried and advanced from the call's own index result).
+func blockingQueryParam(fn *ssa.Function) (int, bool) {
+	if fn == nil || !isRepoFn(fn) || len(fn.Blocks) == 0 {
+		return 0, false
+	}
+	if k, ok := blockingQueryMemo[fn]; ok {
+		return k, k >= 0
+	}
+	res := -1
+	eachInstr(fn, func(i ssa.Instruction) {
+		st, ok := i.(*ssa.Store)
+		if !ok {
+			return
+		}
+		if _, isWI := fieldOf(st.Addr, apiPkg+".QueryOptions", "WaitIndex"); !isWI {
+			return
+		}
+		for k, p := range fn.Params {
+			if st.Val == p {
+				res = k
+			}
+		}
+	})
+	blockingQueryMemo[fn] = res
+	return res, res >= 0
 }
+
+var blockingQueryMemo = map[*ssa.Function]int{}
 
 // extraPacing lets a property add repository-specific pacing operations (e.g. direct Consul queries).
 var extraPacing func(ssa.Instruction, *loop) bool
@@ -51,7 +73,7 @@ func isPacingInstr(i ssa.Instruction, l *loop) bool {
 		if pacingCalls[n] {
 			return true
 		}
-		if k, ok := blockingQueries[n]; ok && k < len(x.Call.Args) {
+		if k, ok := blockingQueryParam(x.Call.StaticCallee()); ok && k < len(x.Call.Args) {
 			return waitIndexAdvances(x, x.Call.Args[k], l)
 		}
 	}
@@ -175,7 +197,7 @@ func consulQueryCalls(l *loop) map[*ssa.Call]bool {
 				continue
 			}
 			n := calleeName(&call.Call)
-			if k, isTab := blockingQueries[n]; isTab && k < len(call.Call.Args) {
+			if k, isTab := blockingQueryParam(call.Call.StaticCallee()); isTab && k < len(call.Call.Args) {
 				out[call] = waitIndexAdvances(call, call.Call.Args[k], l)
 				continue
 			}
